@@ -1451,10 +1451,26 @@ pub fn generate(kind: &str, seed: u64, count: usize, out: &str) {
         let inner = steps[0]["tree"].clone();
         steps[0] = json!({"op": "build", "dst": 0,
           "tree": {"k": "replace", "inner": inner, "repls": []}});
-        let n = g.rng.gen_range(1..=6);
+        // mostly a handful of calls; one program in five is a long history with
+        // many equal keys (sorting algorithms change behaviour with length)
+        let long = g.rng.gen_bool(0.2);
+        let n = if long { g.rng.gen_range(30..=70) } else { g.rng.gen_range(1..=6) };
         let mut have_clone = false;
-        for _ in 0..n {
+        for k in 0..n {
           let mut m = g.replacement(&inner_text);
+          if long {
+            // few distinct keys, every content distinct
+            let len = inner_text.len() as u64;
+            let s = g.rng.gen_range(0..=2u64).min(len);
+            let e = (s + g.rng.gen_range(0..=1u64)).min(len);
+            let ok = |i: u64| inner_text.is_char_boundary(i as usize);
+            if ok(s) && ok(e) {
+              m["s"] = json!(s);
+              m["e"] = json!(e);
+              m["api"] = json!("replace_enf");
+            }
+            m["c"] = bytes_json(format!("<{k}>").as_bytes());
+          }
           m["op"] = json!("replace");
           m["r"] = json!(0);
           steps.push(m);
